@@ -11,6 +11,7 @@ pub mod c06;
 pub mod c12;
 pub mod c16;
 pub mod c18;
+pub mod c19;
 pub mod c20;
 
 #[derive(Clone, Copy, Debug, PartialEq, Eq)]
@@ -44,7 +45,7 @@ pub struct PropDef {
 }
 
 pub fn all() -> Vec<PropDef> {
-    vec![c01::def(), c04::def(), c05::def(), c06::def(), c12::def(), c16::def(), c18::def(), c20::def()]
+    vec![c01::def(), c04::def(), c05::def(), c06::def(), c12::def(), c16::def(), c18::def(), c19::def(), c20::def()]
 }
 
 pub fn get(id: &str) -> Option<PropDef> {
